@@ -14,6 +14,7 @@ LIST=$OUT/list.txt; : > $LIST
 if [ $WHAT != seeds ]; then for d in /verif/variants/refactor/*/; do n=$(basename $d); echo "refactor $n $d/patch.diff ''" >> $LIST; done; fi
 if [ $WHAT != refactor ]; then
   for d in /verif/seeded/C*-m*/; do n=$(basename $d); echo "seed $n $d/patch.diff ${n%%-*}" >> $LIST; done
+  for f in /verif/variants/derived/*.diff; do n=$(basename $f .diff); echo "seed derived-$n $f ${n%%-*}" >> $LIST; done
   for f in F1:C20 F2:C04 F3:C16 F4:C13 F5:C14 F8:C17 F8b:C17; do echo "seed reintroduce-${f%%:*} /verif/variants/reintroduce/${f%%:*}.diff ${f##*:}" >> $LIST; done
 fi
 cat $LIST | xargs -P $JOBS -L 1 bash -c 'one "$0" "$1" "$2" "$3"'
